@@ -18,7 +18,7 @@ LOG_MACROS = ("trace", "debug", "info", "warn", "error", "log")
 LEAN_KW = set("""end from at open type instance where then else do let fun match with if in have show by local prefix
 variable universe theorem def namespace section structure class inductive mutual deriving import export private
 protected partial unsafe macro syntax notation infix return for break continue try catch finally mut using extends
-calc Type Prop Sort abbrev example axiom opaque set_option attribute""".split())
+calc Type Prop Sort abbrev example axiom opaque set_option attribute matches nomatch nofun unless termination_by decreasing_by""".split())
 
 INTLIT = ("intlit",)
 UNIT = ("unit",)
@@ -2072,6 +2072,10 @@ class FnTranslator:
         if k == "tryres": return self.tryres_method(base, bt, m, args, env, pre)
         if k == "vec" or k == "iter": return self.list_method(base, bt, m, turbo, args, env, pre, want)
         if k == "str" and m in ("to_string", "as_str", "to_owned", "into", "as_ref") and not args: return base, bt, "val"
+        # round 8 (b04): `s.starts_with(t)` on strings (a string pattern, not a char/closure): `Rs.strStartsWith s t`
+        if k == "str" and m == "starts_with" and len(args) == 1:
+            a, at = self.expr(args[0], env, pre, ("str",)); self.check_ty(at, ("str",), "starts_with argument")
+            return "(Rs.strStartsWith %s %s)" % (base, a), BOOL, "val"
         if k == "map" and bt[1] == ("str",) and m == "get" and len(args) == 1:
             kk, kt = self.expr(args[0], env, pre, ("str",)); self.check_ty(kt, ("str",), "map key")
             return "(Rs.smapGet %s %s)" % (base, kk), ("opt", bt[2]), "val"
